@@ -14,7 +14,7 @@ SLICES = {
     "crash2":    (1, "K1_ok", 2, 2, 1, 0, 0, "FALSE", ["shutdown_wait"], [], 2),
     "huge":      (2, "K2_huge", 1, 2, 0, 0, 1, "FALSE", ["kill"], [], 2),
     "leak":      (2, "K2_ok", 1, 1, 0, 0, 0, "FALSE", ["none", "shutdown_wait"], [], 3, 1),
-    "leak2":     (2, "K2_ok", 2, 2, 0, 1, 0, "TRUE", ["shutdown_wait", "shutdown_nowait"], [], 3, 1),
+    "leak2":     (2, "K2_ok", 1, 1, 0, 1, 0, "TRUE", ["shutdown_wait", "shutdown_nowait"], [], 3, 1),
     "badarg":    (2, "K2_bad", 1, 1, 0, 0, 1, "FALSE", ["none", "shutdown_wait", "kill"], [], 2),
     "big":       (2, "K2_big", 1, 2, 1, 0, 0, "FALSE", ["none", "shutdown_wait"], [], 2),
     "kill":      (2, "K2_long", 1, 1, 0, 0, 1, "FALSE", ["kill"], [], 2),
